@@ -66,9 +66,10 @@ def op_uuid(op):
 
 
 class Harness:
-    def __init__(self, ncalls, name):
+    def __init__(self, ncalls, name, replay_one_in=1):
         self.I = get_interp()
         self.ncalls, self.name = ncalls, name
+        self.replay_one_in = replay_one_in      # share of the distinct call sequences replayed on both compiled backends
 
     def call(self, txn, meth, *args):
         I = self.I
@@ -83,6 +84,7 @@ class Harness:
         ref = RefStore()
         committed = ref.clone()
         log = []
+        out_of_contract = False
 
         def open_txn():
             r = I.block_on(I.call('<InMemoryStorage as Storage>::txn', [Ref(LV(cell, 0))]))
@@ -231,6 +233,9 @@ class Harness:
                 r = self.call(txn, meth, idx, Some(val) if val is not None else NONE())
                 log.append((meth, idx, val))
                 if idx >= len(ref.ws):
+                    # "cannot add a new item": an index outside the working set is outside the documented contract, so the
+                    # two backends are not compared on such sequences (SQLite deletes/inserts the row, in-memory refuses)
+                    out_of_contract = True
                     if r.variant == 0:
                         return fail('set_working_set_item must not add a new item', 'set_working_set_item-range')
                 else:
@@ -284,16 +289,31 @@ class Harness:
         if [x.fields[0] if x.variant else None for x in r.fields[0].items] != ref.ws:
             return fail('visible working set after commit/abandon', 'visibility-ws')
         out = {'calls': [l[0] for l in log]}
-        if c.want_sample:
+        # every distinct call sequence (method + structural arguments; data values left to the model) is replayed
+        # once on both compiled backends: the SQLite side of the equivalence cannot be executed symbolically
+        shape = repr([(l[0],) + tuple((x.variant if hasattr(x, 'variant') else x) for x in l[1:]) for l in log])
+        import zlib
+        pick = self.replay_one_in == 1 or (zlib.crc32(shape.encode()) + int(c.opts.get('seed', 0))) % self.replay_one_in == 0
+        if c.want_sample and pick and not out_of_contract and shape not in SEEN_SHAPES:
+            SEEN_SHAPES.add(shape)
             m = c.get_model()
             if m is not None:
                 out['scenario'] = {'kind': 'model', 'what': 'storage_calls', 'calls': conc(log, m)}
+                out['shape'] = shape
             out['_encoded'] = sorted(I.encoded)
             out['_modelled'] = sorted(I.modelled)
         return out
 
 
+SEEN_SHAPES = set()          # per worker process
+MAX_REPLAYED_SAMPLES = 100000
+SAMPLE_FAILURE_IS_VIOLATION = True      # two compiled backends disagreeing on a call sequence IS the violation of C16
+SAMPLE_KEY = 'shape'
+
+
 def replay_scenario(v):
+    if 'scenario' in v.get('witness', {}):
+        return v['witness']['scenario']
     return {'kind': 'model', 'what': 'storage_calls', 'calls': v['witness']['calls']}
 
 
@@ -332,9 +352,11 @@ def required_covers(tier):
 
 def configs(tier):
     n = 3 if tier == 'quick' else 4
-    return [dict(name=f'calls{n}', factory=lambda: Harness(n, 'c'),
-                 bounds=f'every sequence of {n} StorageTxn calls (20 methods incl. commit / abandon+reopen; 2 task ids, 1 property, symbolic values) on an initially empty store',
-                 time_limit_s=600 if tier == 'quick' else 3300)]
+    one_in = 1 if tier == 'quick' else 48
+    return [dict(name=f'calls{n}', factory=lambda: Harness(n, 'c', one_in),
+                 bounds=f'every sequence of {n} StorageTxn calls (20 methods incl. commit / abandon+reopen; 2 task ids, 1 property, symbolic values) on an initially empty store; '
+                        + ('every' if one_in == 1 else f'one in {one_in} (chosen by VERIF_SEED) of the') + ' distinct contract-respecting call sequences also replayed on the compiled InMemoryStorage and SqliteStorage and compared',
+                 time_limit_s=600 if tier == 'quick' else 3300, opts={'max_samples': 1 << 30})]
 
 
 ASSUMPTIONS = [
